@@ -9,8 +9,9 @@ instance drawn, global state changed) which the model (Model/Draws.v skeleton of
 a toy generator inside Coq) must predict exactly.  Draw counts / shapes / values are never compared.
 
 Static correspondence (corr:C16-static): a Python-ast extraction turns the source of every function / class of
-tensorly with a random_state (seed) parameter into a skeleton term; Coq evaluates the proved join-precise analysis
-global_free_w on it (Props C16_join_precise_analysis) and compares draw-freeness with the hand-written skeletons.
+tensorly with a random_state (seed) parameter into a term of the Python-shaped language pskel (names kept, callees
+resolved by module-qualified name); Coq evaluates the proved analysis pglobal_free on it (Props C16_source_analysis)
+and compares draw-freeness with the hand-written skeletons.
 
 Predicates (on the implementation's outputs, independent of the model): same int seed + perturbed global state
 => bit-identical results; int-seeded call leaves np.random.get_state() untouched; two generators seeded
@@ -237,6 +238,9 @@ def configs(tier, rng):
     for sh in [(2, 3, 2, 3)] + ([(2, 2, 2, 3, 2, 2), (3, 4)] if thorough else []):
         out.append(Cfg(f"random_tt_matrix[{sh}]", "E_random_tt_matrix", opts_lit(sh, 2), lambda rs, sh=sh: tlr.random_tt_matrix(sh, [1] + [2] * (len(sh) // 2 - 1) + [1], random_state=rs), kinds=BAD,
                        entry_point="tensorly.random.random_tt_matrix"))
+    shp3 = [(4 + i, 3) for i in range(3)]
+    out.append(Cfg("random_parafac2[3,normalise_factors,full]", "E_random_parafac2", opts_lit((), 2, aux=3),
+                   lambda rs: tlr.random_parafac2(shp3, 2, full=True, normalise_factors=True, random_state=rs), entry_point="tensorly.random.random_parafac2"))
     for ns in (2, 3) if thorough else (3,):
         shp = [(4 + i, 3) for i in range(ns)]
         out.append(Cfg(f"random_parafac2[{ns}]", "E_random_parafac2", opts_lit((), 2, aux=ns), lambda rs, shp=shp: tlr.random_parafac2(shp, 2, random_state=rs), kinds=BAD,
@@ -353,6 +357,10 @@ def configs(tier, rng):
                     out.append(Cfg("non_negative_tucker" + tag, "E_nn_tucker", o,
                                    lambda rs, X=X, ini=ini, rk=rk: D.non_negative_tucker(X, rk, n_iter_max=2, init=ini(), random_state=rs),
                                    entry_point="tensorly.decomposition.non_negative_tucker"))
+    # a 4-mode tensor with random initialisation (one draw per mode)
+    X4 = low_rank((3, 2, 3, 2), 2, 5)
+    out.append(Cfg("tucker[(3, 2, 3, 2),random]", "E_tucker", opts_lit((3, 2, 3, 2), 2, "random", "truncated_svd", False, 5, 2),
+                   lambda rs: D.tucker(X4, [2, 2, 2, 2], n_iter_max=2, init="random", random_state=rs), entry_point="tensorly.decomposition.tucker"))
     if thorough:
         Xt = low_rank((4, 3, 5), 2, 2)
         out.append(Cfg("tucker[fixed_factors,randomized]", "E_tucker", opts_lit((4, 5), 2, "user", "randomized_svd", False, 5, 2),
@@ -486,13 +494,15 @@ def configs(tier, rng):
 
 
 # ----------------------------------------------------------------------------- static extraction of draw skeletons (corr:C16-static)
-# Python ast -> term of Model/Draws.v's skel.  Per function / class of tensorly with a random_state (seed) argument:
-# check_random_state bindings, draws on the bound name, numpy.random module-level
-# draws, calls of seed-accepting callees with the expression passed as random_state (callee bodies inlined, constant
-# keyword arguments and defaults propagated into `if` tests of the callee).  Local helper of this property.
+# Python ast -> term of Model/Draws.v's pskel (the Python-shaped language: named variables, x = e, x = check_random_state(e),
+# draws on a name, numpy.random draws, calls passing an expression).  NO abstraction is made here: the names of the code
+# are kept and the analysis pgf (proved sound, Props C16_source_analysis) decides.  Per function / class of tensorly with a
+# random_state (seed) argument; callees resolved by module-qualified name through the import tables; callee bodies
+# inlined; constant keyword arguments and defaults propagated into `if` tests of the callee.  Local helper of this property.
 import ast, os
 
 SEED_PARAMS = ("random_state", "seed")
+GLOBAL_OBJECTS = ("np.random", "numpy.random", "np.random.mtrand._rand", "numpy.random.mtrand._rand", "np.random.mtrand", "numpy.random.mtrand")
 
 
 class _NotAScalar:
@@ -517,105 +527,223 @@ def _dotted(node):
     return None
 
 
-# ---- skeleton terms (tuples) with gf-preserving simplification
+# ---- pskel terms (tuples / strings) with pgf-preserving simplification (only PSkip is ever dropped)
 def seq(items):
-    items = [x for x in items if x != "Skip"]
+    items = [x for x in items if x != "PSkip"]
     if not items:
-        return "Skip"
+        return "PSkip"
     out = items[-1]
     for x in reversed(items[:-1]):
-        out = ("Seq", x, out)
+        out = ("PSeq", x, out)
     return out
 
 
 def branch(a, b):
-    return "Skip" if a == "Skip" and b == "Skip" else ("Branch", a, b)
+    return "PSkip" if a == "PSkip" and b == "PSkip" else ("PBranch", a, b)
 
 
 def loop(b):
-    return "Skip" if b == "Skip" else ("For", b)
+    return "PSkip" if b == "PSkip" else ("PFor", b)
 
 
-def call(a, b):
-    return "Skip" if b == "Skip" else ("Call", a, b)
+def call(e, b):
+    return "PSkip" if b == "PSkip" else ("PCall", e, b)
 
 
 def coq(t):
     if isinstance(t, str):
         return t
-    if t[0] == "Seq":
-        return "(Seq %s %s)" % (coq(t[1]), coq(t[2]))
-    if t[0] == "Branch":
-        return "(Branch 0%%nat %s %s)" % (coq(t[1]), coq(t[2]))
-    if t[0] == "For":
-        return "(For 0%%nat 1%%nat %s)" % coq(t[1])
-    if t[0] == "Call":
-        return "(Call %s %s)" % (t[1], coq(t[2]))
+    if t[0] == "PSeq":
+        return "(PSeq %s %s)" % (coq(t[1]), coq(t[2]))
+    if t[0] == "PBranch":
+        return "(PBranch 0%%nat %s %s)" % (coq(t[1]), coq(t[2]))
+    if t[0] == "PFor":
+        return "(PFor 0%%nat 1%%nat %s)" % coq(t[1])
+    if t[0] == "PCall":
+        return "(PCall %s %s)" % (t[1], coq(t[2]))
     raise ValueError(t)
 
 
-def size(t):
-    return 1 if isinstance(t, str) else 1 + sum(size(x) for x in t[1:] if not isinstance(x, str) or x in ("Skip", "Check", "(Draw 0%nat)", "(DrawNp 0%nat)"))
+def pvar(i):
+    return "(PVar %d%%nat)" % i
 
 
 class Extractor:
+    """Python ast -> pskel (Model/Draws.v).  Definitions are identified by 'relative/path.py::name' (methods:
+    'path.py::Class.method'); callees are resolved through the import tables of the calling module (from-imports,
+    module aliases, re-exports of package __init__ files), with a fallback to a bare name only when it is unique."""
+
     def __init__(self, repo, samplers):
-        self.samplers = samplers
-        self.funcs = {}      # bare name -> [(relpath, FunctionDef)]
-        self.classes = {}    # bare name -> [(relpath, ClassDef)]
-        self.memo = {}
-        self.stack = []
-        self.unresolved = []   # (where, what): constructs the extraction does not understand (never an alarm)
-        self.flags = []        # (where, what): identified global sources
+        self.repo, self.samplers = repo, samplers
+        self.defs = {}        # id -> (rel, FunctionDef | ClassDef, classname or None)
+        self.modules = {}     # rel -> ast.Module
+        self.imports = {}     # rel -> {local name: ("sym", modrel, orig) | ("mod", modrel)}
+        self.stars = {}       # rel -> [modrel]   (from X import *)
+        self.memo, self.stack = {}, []
+        self.unresolved, self.flags = [], []
+        self.stats = {"callees_resolved_by_qualified_name": 0, "callees_resolved_by_unique_bare_name": 0, "callees_ambiguous": 0}
         root = os.path.join(repo, "tensorly")
         for dp, dn, fns in os.walk(root):
             if "tests" in dp.split(os.sep) or "plugins" in dp.split(os.sep):
                 continue
-            for fn in fns:
-                if not fn.endswith(".py"):
-                    continue
-                path = os.path.join(dp, fn)
-                rel = os.path.relpath(path, repo)
-                try:
-                    tree = ast.parse(open(path).read())
-                except SyntaxError:
-                    continue
-                for node in tree.body:
-                    if isinstance(node, ast.FunctionDef):
-                        self.funcs.setdefault(node.name, []).append((rel, node))
-                    elif isinstance(node, ast.ClassDef):
-                        self.classes.setdefault(node.name, []).append((rel, node))
-                        if node.name == "Backend":       # tl.randn / tl.gamma / check_random_state live here
-                            for m in node.body:
-                                if isinstance(m, ast.FunctionDef) and m.name in ("randn", "gamma"):
-                                    self.funcs.setdefault(m.name, []).append((rel, m))
-        # seed-accepting functions: explicit parameter, or **kwargs forwarded to one (fixpoint)
-        self.seedparam = {}   # bare name -> "random_state" | "seed" | "**"
-        for name, defs in self.funcs.items():
-            for rel, f in defs:
-                p = self._explicit_seed_param(f)
-                if p:
-                    self.seedparam[name] = p
-        for _ in range(3):
-            for name, defs in self.funcs.items():
-                if name in self.seedparam:
-                    continue
-                for rel, f in defs:
-                    if f.args.kwarg is None:
+            for fn in sorted(fns):
+                if fn.endswith(".py"):
+                    path = os.path.join(dp, fn)
+                    try:
+                        self.modules[os.path.relpath(path, repo)] = ast.parse(open(path).read())
+                    except SyntaxError:
                         continue
-                    kw = f.args.kwarg.arg
-                    aliases = self._fun_aliases(f)
-                    for c in ast.walk(f):
-                        if isinstance(c, ast.Call) and any(k.arg is None and isinstance(k.value, ast.Name) and k.value.id == kw for k in c.keywords):
-                            for cal in self._callee_names(c, aliases):
-                                if cal in self.seedparam:
-                                    self.seedparam[name] = "**"
-        self.seedclass = {}
-        for name, defs in self.classes.items():
-            for rel, c in defs:
-                for m in c.body:
+        for rel, tree in self.modules.items():
+            for node in tree.body:
+                if isinstance(node, ast.FunctionDef):
+                    self.defs[f"{rel}::{node.name}"] = (rel, node, None)
+                elif isinstance(node, ast.ClassDef):
+                    self.defs[f"{rel}::{node.name}"] = (rel, node, None)
+                    for m in node.body:
+                        if isinstance(m, ast.FunctionDef):
+                            self.defs[f"{rel}::{node.name}.{m.name}"] = (rel, m, node.name)
+            imp, stars = {}, []
+            for node in ast.walk(tree):
+                if isinstance(node, ast.Import):
+                    for a in node.names:
+                        m = self._module_file(a.name.split("."), None, 0)
+                        if m:
+                            imp[a.asname or a.name.split(".")[0]] = ("mod", m if a.asname else self._module_file(a.name.split(".")[:1], None, 0))
+                elif isinstance(node, ast.ImportFrom):
+                    m = self._module_file(node.module.split(".") if node.module else [], rel, node.level)
+                    if not m:
+                        continue
+                    for a in node.names:
+                        if a.name == "*":
+                            stars.append(m)
+                        else:
+                            imp[a.asname or a.name] = ("sym", m, a.name)
+            self.imports[rel], self.stars[rel] = imp, stars
+        # seed-accepting definitions
+        self.seedparam = {}    # function / method id -> "random_state" | "seed" | "**"
+        self.seedclass = {}    # class id -> parameter name of __init__
+        for i, (rel, node, cls) in self.defs.items():
+            if isinstance(node, ast.FunctionDef) and node.name != "__init__":
+                p = self._explicit_seed_param(node)
+                if p:
+                    self.seedparam[i] = p
+            elif isinstance(node, ast.ClassDef):
+                for m in node.body:
                     if isinstance(m, ast.FunctionDef) and m.name == "__init__" and self._explicit_seed_param(m):
-                        self.seedclass[name] = self._explicit_seed_param(m)
+                        self.seedclass[i] = self._explicit_seed_param(m)
+        for _ in range(3):     # **kwargs forwarded to a seed-accepting callee (svd_interface)
+            for i, (rel, f, cls) in self.defs.items():
+                if i in self.seedparam or not isinstance(f, ast.FunctionDef) or f.args.kwarg is None:
+                    continue
+                kw = f.args.kwarg.arg
+                sc = _Scope(self, f, None, i, rel, cls, {})
+                for n in ast.walk(f):       # svd_fun = randomized_svd
+                    if isinstance(n, ast.Assign) and len(n.targets) == 1 and isinstance(n.targets[0], ast.Name) and isinstance(n.value, ast.Name):
+                        r = self.resolve_symbol(rel, n.value.id)
+                        if isinstance(r, str):
+                            sc.fun_aliases.setdefault(n.targets[0].id, set()).add(r)
+                for c in ast.walk(f):
+                    if isinstance(c, ast.Call) and any(k.arg is None and isinstance(k.value, ast.Name) and k.value.id == kw for k in c.keywords):
+                        if any(t in self.seedparam for t in self.resolve_call(rel, sc, c, count=False)):
+                            self.seedparam[i] = "**"
+
+    # ---- modules and symbols
+    def _module_file(self, parts, rel, level):
+        if level:
+            base = os.path.dirname(rel)
+            for _ in range(level - 1):
+                base = os.path.dirname(base)
+            cand = os.path.join(base, *parts) if parts else base
+        else:
+            if not parts or parts[0] != "tensorly":
+                return None
+            cand = os.path.join(*parts)
+        for p in (cand + ".py", os.path.join(cand, "__init__.py")):
+            if p in self.modules:
+                return p
+        return None
+
+    def _submodule(self, modrel, name):
+        if not modrel.endswith("__init__.py"):
+            return None
+        base = os.path.dirname(modrel)
+        for p in (os.path.join(base, name + ".py"), os.path.join(base, name, "__init__.py")):
+            if p in self.modules:
+                return p
+        return None
+
+    def resolve_symbol(self, modrel, name, seen=()):
+        """-> definition id | ('mod', relpath) | None"""
+        if (modrel, name) in seen:
+            return None
+        seen = seen + ((modrel, name),)
+        if f"{modrel}::{name}" in self.defs:
+            return f"{modrel}::{name}"
+        ent = self.imports.get(modrel, {}).get(name)
+        if ent:
+            if ent[0] == "mod":
+                return ent
+            r = self.resolve_symbol(ent[1], ent[2], seen)
+            if r:
+                return r
+            sub = self._submodule(ent[1], ent[2])
+            if sub:
+                return ("mod", sub)
+        sub = self._submodule(modrel, name)
+        if sub:
+            return ("mod", sub)
+        for m in self.stars.get(modrel, []):
+            r = self.resolve_symbol(m, name, seen)
+            if r:
+                return r
+        return None
+
+    def resolve_dotted(self, rel, parts):
+        cur = self.resolve_symbol(rel, parts[0])
+        for a in parts[1:]:
+            if isinstance(cur, tuple):
+                cur = self.resolve_symbol(cur[1], a)
+            elif isinstance(cur, str) and f"{cur}.{a}" in self.defs:      # Class.method
+                cur = f"{cur}.{a}"
+            else:
+                return None
+        return cur if isinstance(cur, str) else None
+
+    def resolve_call(self, rel, scope, c, count=True):
+        """ids of the seed-accepting definitions this call may reach ([] = none / not seed-accepting)"""
+        d = _dotted(c.func)
+        if d is None:
+            return []
+        parts = d.split(".")
+        if len(parts) == 1 and parts[0] in scope.fun_aliases:
+            return sorted(t for t in scope.fun_aliases[parts[0]] if t in self.seedparam or t in self.seedclass)
+        tgt = None
+        if parts[0] == "self" and scope.cls and len(parts) == 2:
+            tgt = f"{rel}::{scope.cls}.{parts[1]}" if f"{rel}::{scope.cls}.{parts[1]}" in self.defs else None
+        else:
+            tgt = self.resolve_dotted(rel, parts)
+        if tgt is not None:
+            if count:
+                self.stats["callees_resolved_by_qualified_name"] += 1
+            return [tgt] if (tgt in self.seedparam or tgt in self.seedclass) else []
+        # fallback: the bare name, only among seed-accepting definitions
+        last = parts[-1]
+        cands = sorted(i for i in list(self.seedparam) + list(self.seedclass) if i.split("::")[1].split(".")[-1] == last)
+        if len(parts) == 1:
+            # a plain name that the module neither defines nor imports is a local variable / parameter: not a callee we know
+            if cands and count:
+                self.unresolved.append((scope.where, f"call of the local name {d}, which is also the name of a seed-accepting definition"))
+            return []
+        if len(cands) == 1:
+            if count:
+                self.stats["callees_resolved_by_unique_bare_name"] += 1
+            return cands
+        if len(cands) > 1:
+            if count:
+                self.stats["callees_ambiguous"] += 1
+                self.unresolved.append((scope.where, f"call {d}: several seed-accepting definitions are named {last}"))
+            return cands
+        return []
 
     @staticmethod
     def _explicit_seed_param(f):
@@ -625,61 +753,33 @@ class Extractor:
                 return p
         return None
 
-    def _fun_aliases(self, f):
-        """local names assigned from module-level functions: svd_fun = randomized_svd"""
-        al = {}
-        for n in ast.walk(f):
-            if isinstance(n, ast.Assign) and len(n.targets) == 1 and isinstance(n.targets[0], ast.Name) and isinstance(n.value, ast.Name) \
-                    and n.value.id in self.funcs:
-                al.setdefault(n.targets[0].id, set()).add(n.value.id)
-        return al
-
-    def _callee_names(self, c, aliases):
-        d = _dotted(c.func)
-        if d is None:
-            return []
-        last = d.split(".")[-1]
-        if isinstance(c.func, ast.Name) and last in aliases:
-            return sorted(aliases[last])
-        return [last]
-
     # ---- bodies
-    def body_of(self, name, env=None):
-        """skeleton of the function / class called [name], relative to its own random_state argument;
-        env: parameters of the callee whose value is a known constant at this call (defaults included)"""
+    def body_of(self, i, env=None):
+        """pskel of the definition i; variable 0 = its own random_state argument; env: parameters known to be constants"""
         env = env or {}
-        key = (name, tuple(sorted((k, repr(v)) for k, v in env.items())))
-        name_ = name
+        key = (i, tuple(sorted((k, repr(v)) for k, v in env.items())))
         if key in self.memo:
             return self.memo[key]
-        if name in self.stack:
-            return "Skip"        # recursion: cut (none in tensorly)
-        self.stack.append(name)
+        if i in self.stack:
+            return "PSkip"
+        self.stack.append(i)
         try:
-            if name in self.seedclass:
-                rel, c = self.classes[name][0]
-                parts = []
-                for m in c.body:
-                    if isinstance(m, ast.FunctionDef) and m.name != "__init__":
-                        parts.append(self._scope(m, "self", f"{rel}:{name}.{m.name}", {}))
-                out = seq(parts)
+            rel, node, cls = self.defs[i]
+            if i in self.seedclass:
+                out = seq([_Scope(self, m, "self", f"{i}.{m.name}", rel, node.name, {}).block(m.body)
+                           for m in node.body if isinstance(m, ast.FunctionDef) and m.name != "__init__"])
             else:
-                rel, f = self.funcs[name][0]
-                out = self._scope(f, self.seedparam.get(name), f"{rel}:{name}", env)
+                out = _Scope(self, node, self.seedparam.get(i), i, rel, cls, env).block(node.body)
         finally:
             self.stack.pop()
         self.memo[key] = out
         return out
 
-    def _scope(self, f, param, where, env):
-        sc = _Scope(self, f, param, where, env)
-        return sc.block(f.body)
-
     def call_env(self, callee, c, caller):
         """constants known for the parameters of [callee] at the call c made from scope [caller]"""
-        if callee not in self.funcs:
+        rel, fd, cls = self.defs[callee]
+        if not isinstance(fd, ast.FunctionDef):
             return {}
-        rel, fd = self.funcs[callee][0]
         a = fd.args
         pos = [x.arg for x in a.posonlyargs + a.args]
         if pos and pos[0] == "self":
@@ -687,9 +787,8 @@ class Extractor:
         env = {}
         dynamic = any(k.arg is None for k in c.keywords) or any(isinstance(x, ast.Starred) for x in c.args)
         if not dynamic:
-            defaults = a.defaults
             allpos = [x.arg for x in a.posonlyargs + a.args]
-            for nm, d in zip(allpos[len(allpos) - len(defaults):], defaults):
+            for nm, d in zip(allpos[len(allpos) - len(a.defaults):], a.defaults):
                 if isinstance(d, ast.Constant):
                     env[nm] = d.value
             for x, d in zip(a.kwonlyargs, a.kw_defaults):
@@ -723,46 +822,66 @@ class Extractor:
 
 
 class _Scope:
-    def __init__(self, ex, f, param, where, env=None):
-        self.ex, self.f, self.param, self.where = ex, f, param, where
+    def __init__(self, ex, f, param, where, rel, cls, env):
+        self.ex, self.f, self.param, self.where, self.rel, self.cls = ex, f, param, where, rel, cls
         assigned = set()
         for n in ast.walk(f):
-            if isinstance(n, (ast.Assign, ast.AugAssign, ast.AnnAssign, ast.For, ast.comprehension, ast.NamedExpr, ast.With)):
+            if isinstance(n, (ast.Assign, ast.AugAssign, ast.AnnAssign, ast.For, ast.comprehension, ast.NamedExpr)):
                 tg = n.targets if isinstance(n, ast.Assign) else [getattr(n, "target", None)]
                 for t in tg:
                     for m in ast.walk(t) if t is not None else []:
                         if isinstance(m, ast.Name):
                             assigned.add(m.id)
         self.known = {k: v for k, v in (env or {}).items() if k not in assigned}
-        self.raw = set()        # names that hold the raw random_state argument
-        self.rng = set()        # names bound by check_random_state(raw)
-        self.glob = set()       # names bound by check_random_state(<something else>)
+        self.vars = {}          # generator-related names -> variable number (0 = the random_state argument)
         self.kwname = f.args.kwarg.arg if f.args.kwarg is not None else None
         if param in SEED_PARAMS:
-            self.raw.add(param)
-        self.aliases = {}       # local names assigned from module-level functions (svd_fun = randomized_svd), as encountered
+            self.vars[param] = 0
+        self.nvars = 1
+        self.fun_aliases = {}   # local names assigned from functions (svd_fun = randomized_svd) -> ids, as encountered
+        self.pre = []           # events produced while classifying an expression (inline check_random_state(...))
 
-    # -- classification of an expression used as a random_state argument
-    def is_raw(self, e):
-        if isinstance(e, ast.Name) and e.id in self.raw:
-            return True
-        if self.param == "self" and isinstance(e, ast.Attribute) and isinstance(e.value, ast.Name) and e.value.id == "self" and e.attr in SEED_PARAMS:
-            return True
-        return False
+    def var(self, name):
+        if name not in self.vars:
+            self.vars[name] = self.nvars
+            self.nvars += 1
+        return self.vars[name]
 
-    def argkind(self, e):
-        if self.is_raw(e):
-            return "ARaw"
-        if isinstance(e, ast.Name) and e.id in self.rng:
-            return "ARng"
-        if isinstance(e, ast.Name) and e.id in self.glob:
-            return "ANone"
+    def tmp(self):
+        self.nvars += 1
+        return self.nvars - 1
+
+    def is_param_attr(self, e):
+        return self.param == "self" and isinstance(e, ast.Attribute) and isinstance(e.value, ast.Name) and e.value.id == "self" and e.attr in SEED_PARAMS
+
+    def is_check_call(self, e):
+        return isinstance(e, ast.Call) and (_dotted(e.func) or "").split(".")[-1] == "check_random_state" and len(e.args) >= 1
+
+    def pexp(self, e, what="random_state argument"):
+        """expression of random_state type -> pexp (None when it is not one we understand)"""
+        if isinstance(e, ast.Name) and e.id in self.vars:
+            return pvar(self.vars[e.id])
+        if self.is_param_attr(e):
+            return pvar(0)
         if isinstance(e, ast.Constant) and e.value is None:
-            return "ANone"
-        if isinstance(e, ast.Constant) and isinstance(e.value, int):
-            return "(AConst %d%%Z)" % e.value
-        self.ex.unresolved.append((self.where, "random_state argument " + ast.dump(e)[:80]))
-        return "ARaw"
+            return "PNoneE"
+        if isinstance(e, ast.Constant) and isinstance(e.value, int) and not isinstance(e.value, bool):
+            return "(PConstE (%d)%%Z)" % e.value
+        if (_dotted(e) or "") in GLOBAL_OBJECTS:
+            return "PGlobE"
+        if self.is_check_call(e):
+            inner = self.pexp(e.args[0], what)
+            t = self.tmp()
+            self.pre.append("(PCheck %d%%nat %s)" % (t, inner if inner is not None else pvar(0)))
+            return pvar(t)
+        return None
+
+    def pexp_or_arg(self, e, what):
+        p = self.pexp(e, what)
+        if p is None:
+            self.ex.unresolved.append((self.where, f"{what}: {ast.dump(e)[:80]}"))
+            return pvar(0)
+        return p
 
     # -- statements
     def block(self, stmts):
@@ -772,7 +891,7 @@ class _Scope:
         if isinstance(s, (ast.FunctionDef, ast.AsyncFunctionDef)):
             return self.block(s.body)            # local closure: inlined where it is defined
         if isinstance(s, ast.ClassDef):
-            return "Skip"
+            return "PSkip"
         if isinstance(s, ast.If):
             t = self.truth(s.test)
             if t is True:
@@ -787,22 +906,55 @@ class _Scope:
         if isinstance(s, (ast.With, ast.AsyncWith)):
             return seq([self.expr(i.context_expr) for i in s.items] + [self.block(s.body)])
         if isinstance(s, ast.Try):
-            return seq([self.block(s.body)] + [branch(self.block(h.body), "Skip") for h in s.handlers] + [self.block(s.orelse), self.block(s.finalbody)])
-        if isinstance(s, ast.Assign):
-            ev = self.expr(s.value)
-            if len(s.targets) == 1 and isinstance(s.targets[0], ast.Name):
-                ev = seq([ev, self.bind(s.targets[0].id, s.value)])
-            return ev
-        if isinstance(s, ast.AnnAssign):
-            if s.value is None:
-                return "Skip"
-            ev = self.expr(s.value)
-            if isinstance(s.target, ast.Name):
-                ev = seq([ev, self.bind(s.target.id, s.value)])
-            return ev
-        # everything else: evaluate the expressions it contains, in order
+            return seq([self.block(s.body)] + [branch(self.block(h.body), "PSkip") for h in s.handlers] + [self.block(s.orelse), self.block(s.finalbody)])
+        if isinstance(s, ast.Assign) and len(s.targets) == 1:
+            return self.assign(s.targets[0], s.value)
+        if isinstance(s, ast.AnnAssign) and s.value is not None:
+            return self.assign(s.target, s.value)
         return seq([self.expr(c) for c in ast.iter_child_nodes(s) if isinstance(c, ast.expr)] +
                    [self.stmt(c) for c in ast.iter_child_nodes(s) if isinstance(c, ast.stmt)])
+
+    def assign(self, target, value):
+        """`target = value`: a binding of a generator-related name is kept as it is (PAssign / PCheck)"""
+        if isinstance(value, ast.IfExp):        # x = a if c else b
+            t = self.truth(value.test)
+            if t is not None:
+                return seq([self.expr(value.test), self.assign(target, value.body if t else value.orelse)])
+            return seq([self.expr(value.test), branch(self.assign(target, value.body), self.assign(target, value.orelse))])
+        if isinstance(value, ast.BoolOp) and isinstance(target, ast.Name):      # x = a or b / a and b: one of the operands
+            ev = self.assign(target, value.values[0])
+            for v in value.values[1:]:
+                ev = branch(ev, self.assign(target, v))
+            return ev
+        if isinstance(target, ast.Name) or self.is_param_attr(target):
+            name = target.id if isinstance(target, ast.Name) else None
+            if name is not None and isinstance(value, ast.Name):
+                r = self.ex.resolve_symbol(self.rel, value.id)
+                if isinstance(r, str) and isinstance(self.ex.defs[r][1], ast.FunctionDef):
+                    self.fun_aliases.setdefault(name, set()).add(r)
+            if self.is_check_call(value):
+                sub = seq([self.expr(a) for a in value.args[1:]])
+                self.pre = []
+                inner = self.pexp(value.args[0])
+                pre = list(self.pre)
+                if inner is None:
+                    self.ex.unresolved.append((self.where, f"check_random_state of {ast.dump(value.args[0])[:60]}"))
+                    inner = pvar(0)
+                if inner in ("PNoneE", "PGlobE"):
+                    self.ex.flags.append((self.where, "check_random_state applied to None / the global generator"))
+                x = self.var(name) if name is not None else 0
+                return seq([sub] + pre + ["(PCheck %d%%nat %s)" % (x, inner)])
+            self.pre = []
+            p = self.pexp(value)
+            pre = list(self.pre)
+            tracked = (name in self.vars) if name is not None else True
+            if p is not None and (tracked or p.startswith("(PVar") or p == "PGlobE"):
+                # a generator-related value, or a tracked name that gets None / an int
+                x = self.var(name) if name is not None else 0
+                return seq(pre + ["(PAssign %d%%nat %s)" % (x, p)])
+            if p is None and tracked and name is not None:
+                self.ex.unresolved.append((self.where, f"{name} (generator-valued) re-bound to {ast.dump(value)[:60]}"))
+        return self.expr(value)
 
     def truth(self, e):
         """three-valued evaluation of a test under what is known: constant parameters of this call, and the fact
@@ -821,9 +973,10 @@ class _Scope:
             return True if any(t is True for t in ts) else (False if all(t is False for t in ts) else None)
         if isinstance(e, ast.Compare) and len(e.ops) == 1:
             l, r, op = e.left, e.comparators[0], e.ops[0]
-            if self.is_raw(l) and isinstance(r, ast.Constant) and r.value is None and isinstance(op, (ast.Is, ast.Eq)):
+            arg0 = (isinstance(l, ast.Name) and self.vars.get(l.id) == 0 and self.param in SEED_PARAMS and l.id not in self.reassigned0()) or self.is_param_attr(l)
+            if arg0 and isinstance(r, ast.Constant) and r.value is None and isinstance(op, (ast.Is, ast.Eq)):
                 return False
-            if self.is_raw(l) and isinstance(r, ast.Constant) and r.value is None and isinstance(op, (ast.IsNot, ast.NotEq)):
+            if arg0 and isinstance(r, ast.Constant) and r.value is None and isinstance(op, (ast.IsNot, ast.NotEq)):
                 return True
 
             def val(x):
@@ -844,32 +997,21 @@ class _Scope:
                     return v1 is not v2
         return None
 
-    def bind(self, name, value):
-        """effect of `name = value` on the sets of generator-valued names; returns the Check event if any"""
-        if isinstance(value, ast.Name) and value.id in self.ex.funcs:
-            self.aliases.setdefault(name, set()).add(value.id)
-        if isinstance(value, ast.Call) and (_dotted(value.func) or "").split(".")[-1] == "check_random_state" and value.args:
-            a = value.args[0]
-            if self.is_raw(a):
-                self.rng.add(name)
-                return "Check"
-            self.glob.add(name)
-            self.ex.flags.append((self.where, "check_random_state applied to something else than the random_state argument"))
-            return "Skip"
-        if (_dotted(value) or "") in ("np.random", "numpy.random", "np.random.mtrand._rand", "numpy.random.mtrand._rand", "np.random.mtrand"):
-            self.glob.add(name)
-            return "Skip"
-        if self.is_raw(value):
-            # alias of the argument (sample_khatri_rao: `rng = random_state` under isinstance): for a generator object
-            # this is what check_random_state returns
-            self.rng.add(name)
-            return "Check"
-        return "Skip"
+    def reassigned0(self):
+        """is the argument name itself assigned somewhere in the function? (then `random_state is None` is not decided)"""
+        if not hasattr(self, "_re0"):
+            self._re0 = set()
+            for n in ast.walk(self.f):
+                if isinstance(n, ast.Assign):
+                    for t in n.targets:
+                        if isinstance(t, ast.Name) and self.vars.get(t.id) == 0:
+                            self._re0.add(t.id)
+        return self._re0
 
     # -- expressions: events in evaluation order
     def expr(self, e):
         if e is None:
-            return "Skip"
+            return "PSkip"
         if isinstance(e, (ast.ListComp, ast.SetComp, ast.GeneratorExp)):
             gens = seq([seq([self.expr(g.iter)] + [self.expr(i) for i in g.ifs]) for g in e.generators])
             return seq([gens, loop(self.expr(e.elt))])
@@ -888,78 +1030,73 @@ class _Scope:
         return seq([self.expr(c) for c in ast.iter_child_nodes(e) if isinstance(c, ast.expr)])
 
     def call(self, c):
+        seedkw = [k for k in c.keywords if k.arg in SEED_PARAMS]
         pre = [self.expr(c.func.value)] if isinstance(c.func, ast.Attribute) else []
-        pre += [self.expr(a) for a in c.args] + [self.expr(k.value) for k in c.keywords]
+        pre += [self.expr(a) for a in c.args] + [self.expr(k.value) for k in c.keywords if k not in seedkw or not self.is_check_call(k.value)]
         d = _dotted(c.func) or ""
         parts = d.split(".")
         last = parts[-1]
-        ev = "Skip"
+        ev = "PSkip"
+        drawish = self.ex.samplers | {"seed", "set_state"}
         if last == "check_random_state":
-            ev = "Skip"                 # the binding (Assign) emits Check; a bare call has no effect
-            if not (c.args and self.is_raw(c.args[0])) and not isinstance(getattr(c, "_parent_assign", None), ast.Assign):
-                pass
-        elif len(parts) >= 2 and last in self.ex.samplers | {"seed", "set_state"} and isinstance(c.func.value, ast.Name) and \
-                (parts[0] in self.rng or parts[0] in self.glob) and len(parts) == 2:
-            if parts[0] in self.rng and parts[0] not in self.glob:
-                ev = "(Draw 0%nat)" if last in self.ex.samplers else "Skip"
-            else:
-                ev = "(DrawNp 0%nat)"
-                self.ex.flags.append((self.where, f"draw {d} on a generator obtained from check_random_state(<not the argument>)"))
-        elif len(parts) == 2 and parts[0] in self.raw and last in self.ex.samplers:
-            ev = seq(["Check", "(Draw 0%nat)"])           # draws on the argument itself
-        elif len(parts) >= 3 and parts[-2] == "random" and parts[0] in ("np", "numpy") and last in self.ex.samplers | {"seed", "set_state"}:
-            ev = "(DrawNp 0%nat)"
-            self.ex.flags.append((self.where, f"module-level draw {d}"))
-        elif "_rand" in parts and last in self.ex.samplers:
-            ev = "(DrawNp 0%nat)"
-            self.ex.flags.append((self.where, f"draw on numpy's global generator object {d}"))
+            ev = "PSkip"                 # a binding emits PCheck (assign); as an argument: pexp; a bare call has no effect
+        elif len(parts) == 2 and isinstance(c.func.value, ast.Name) and parts[0] in self.vars and last in self.ex.samplers:
+            ev = "(PDraw %d%%nat 0%%nat)" % self.vars[parts[0]]
+        elif len(parts) == 3 and parts[0] == "self" and parts[1] in SEED_PARAMS and self.param == "self" and last in self.ex.samplers:
+            ev = "(PDraw 0%nat 0%nat)"
+        elif ".".join(parts[:-1]) in GLOBAL_OBJECTS and last in drawish:
+            ev = "(PDrawNp 0%nat)"
+            self.ex.flags.append((self.where, f"draw on numpy's global generator: {d}"))
         else:
             alts = []
-            for cal in self.ex._callee_names(c, self.aliases):
-                if cal in self.ex.seedclass and (len(parts) == 1 or cal not in self.ex.seedparam):
-                    alts.append(call(self.arg_for(c, cal, self.ex.seedclass[cal], is_class=True), self.ex.body_of(cal)))
-                elif cal in self.ex.seedparam:
-                    alts.append(call(self.arg_for(c, cal, self.ex.seedparam[cal]), self.ex.body_of(cal, self.ex.call_env(cal, c, self))))
-            if alts:
-                ev = alts[0]
-                for a in alts[1:]:
-                    ev = branch(a, ev)
+            for cal in self.ex.resolve_call(self.rel, self, c):
+                if cal in self.ex.seedclass:
+                    alts.append((cal, self.ex.seedclass[cal], True))
+                else:
+                    alts.append((cal, self.ex.seedparam[cal], False))
+            evs = []
+            for cal, pname, is_class in alts:
+                self.pre = []
+                a = self.arg_for(c, cal, pname, is_class)
+                evs.append(seq(list(self.pre) + [call(a, self.ex.body_of(cal, {} if is_class else self.ex.call_env(cal, c, self)))]))
+            if evs:
+                ev = evs[0]
+                for x in evs[1:]:
+                    ev = branch(x, ev)
         return seq(pre + [ev])
 
     def arg_for(self, c, callee, pname, is_class=False):
         """the random_state argument of the call c to [callee] (whose seed parameter is pname)"""
-        names = [p for p in SEED_PARAMS] if pname == "**" else [pname]
+        names = list(SEED_PARAMS) if pname == "**" else [pname]
         for k in c.keywords:
             if k.arg in names:
-                return self.argkind(k.value)
+                return self.pexp_or_arg(k.value, f"random_state argument passed to {callee}")
         # **kwargs forwarded: the function's own **kwargs can carry random_state only if the function has no explicit
         # random_state parameter (svd_interface); **tl.context(tensor) / **context never does
         for k in c.keywords:
             if k.arg is None:
                 if isinstance(k.value, ast.Name) and k.value.id == self.kwname and self.param == "**":
-                    return "ARaw"
+                    return pvar(0)
                 d = (_dotted(k.value.func) if isinstance(k.value, ast.Call) else _dotted(k.value)) or ""
                 if d.split(".")[-1] not in ("context", "kwargs", self.kwname):
                     self.ex.unresolved.append((self.where, f"**{d or ast.dump(k.value)[:40]} passed to {callee}"))
-        # positional
         if pname != "**":
+            rel, node, cls = self.ex.defs[callee]
             if is_class:
-                rel, cd = self.ex.classes[callee][0]
-                init = [m for m in cd.body if isinstance(m, ast.FunctionDef) and m.name == "__init__"][0]
+                init = [m for m in node.body if isinstance(m, ast.FunctionDef) and m.name == "__init__"][0]
                 pos = [a.arg for a in init.args.posonlyargs + init.args.args][1:]
             else:
-                rel, fd = self.ex.funcs[callee][0]
-                pos = [a.arg for a in fd.args.posonlyargs + fd.args.args]
+                pos = [a.arg for a in node.args.posonlyargs + node.args.args]
                 if pos and pos[0] == "self":
                     pos = pos[1:]
             if pname in pos and pos.index(pname) < len(c.args) and not any(isinstance(a, ast.Starred) for a in c.args):
-                return self.argkind(c.args[pos.index(pname)])
-        return "ANone"
+                return self.pexp_or_arg(c.args[pos.index(pname)], f"positional random_state argument passed to {callee}")
+        return "PNoneE"
 
 
-def entry(ex, name):
-    """skeleton of a whole call of the entry point [name] with random_state = the caller's argument"""
-    return call("ARaw", ex.body_of(name))
+def entry(ex, i):
+    """pskel of a whole call of the definition i: variable 0 is the caller's random_state argument"""
+    return ex.body_of(i)
 
 
 STATIC_EP = {
@@ -987,14 +1124,15 @@ def static_cases(cfgs):
     models = {}
     for c in cfgs:
         models.setdefault(c.ep, set()).add(c.o)
-    names = sorted(set(ex.seedparam) | set(ex.seedclass))
+    ids = sorted(set(ex.seedparam) | set(ex.seedclass))
     cases = []
-    for i, n in enumerate(names):
-        sk = entry(ex, n)
-        ep = STATIC_EP.get(n)
+    for k, i in enumerate(ids):
+        sk = entry(ex, i)
+        bare = i.split("::")[1].split(".")[-1]
+        ep = STATIC_EP.get(bare)
         ms = "[" + "; ".join(f"skeleton {ep} {o}" for o in sorted(models.get(ep, ()))) + "]"
-        cases.append(f"({i}%nat, {C.boolc(n not in STATIC_NOT_REQUIRED)}, {coq(sk)}, {ms})")
-    return ex, names, cases
+        cases.append(f"({k}%nat, {C.boolc(bare not in STATIC_NOT_REQUIRED)}, {coq(sk)}, {ms})")
+    return ex, ids, cases
 
 
 # ----------------------------------------------------------------------------- running one configuration
@@ -1225,6 +1363,30 @@ def run(chk):
     try:
         cfgs = configs(tier, rng)
         nskip = 0
+        # corpus first: the historical defects of this property and the gaps the mutation self-tests exposed, with fixed seeds
+        import glob, json as _json, os as _os
+        by_name = {c.name: c for c in cfgs}
+        ncorpus = 0
+        for fn in sorted(glob.glob(_os.path.join(C.VERIF, "corpus", "C16", "*.json"))):
+            try:
+                ent = _json.load(open(fn))
+            except Exception as e:  # noqa
+                chk.broken.append({"what": "corpus file unreadable", "detail": f"{fn}: {e}"[:300]})
+                continue
+            cfg = by_name.get(ent.get("config"))
+            if cfg is None:
+                if "thorough" not in by_name:
+                    by_name["thorough"] = None
+                    for c in configs("thorough", random.Random(0)):
+                        by_name.setdefault(c.name, c)
+                cfg = by_name.get(ent.get("config"))
+            if cfg is None:
+                chk.broken.append({"what": "corpus entry names an unknown configuration", "detail": f"{fn}: {ent.get('config')}"})
+                continue
+            nskip += bool(check_config(cfg, [int(x) for x in ent.get("seeds", [0])], rng, chk, cases, meta, n_perturb=2))
+            chk.hist("corpus", _os.path.basename(fn))
+            ncorpus += 1
+        chk.cov["corpus_entries_run_first"] = ncorpus
         for i, cfg in enumerate(cfgs):
             # every configuration sees the first two seeds; the others rotate (quick) / all (thorough)
             ss = seeds if tier == "thorough" else seeds[:1] + [seeds[1 + (i % (len(seeds) - 1))]]
@@ -1251,11 +1413,16 @@ def run(chk):
             for bad_seed in (-1, 2 ** 32, 2 ** 64 + 5):
                 perturb(rng)
                 s0 = gstate()
-                a = C.call_impl(c.fn, bad_seed, timeout=60)
+                a, proj_bad, _ = traced_call(c, "int", bad_seed)
                 s1 = gstate()
                 perturb(rng)
                 b = C.call_impl(c.fn, bad_seed, timeout=60)
                 chk.count(key=("out-of-range seed", c.entry_point), nontrivial=True)
+                if not timed_out(a):
+                    # under the Coq-evaluated correspondence as well: the model (check_random_state with NumPy's seed range)
+                    # must predict whether the call is rejected, and that nothing is drawn from the global generator
+                    cases.append(f"({len(cases)}%nat, {c.ep}, {c.o}, {rs_lit('int', bad_seed)}, {proj_lit(proj_bad)})")
+                    meta.append((c.name, "int(out of range)", bad_seed, proj_bad))
                 chk.cov["evaluations"] += 1
                 chk.hist("out-of-range int seed", a[0])
                 if not same(a, b):
@@ -1282,13 +1449,14 @@ def run(chk):
             sfail, sn, sbroken = C.run_case_shards("C16", HEADER_STATIC, "scase", scases, shard=60, tag="static_retry")
         chk.cov["static_skeletons_extracted_and_analysed"] = sn
         chk.cov["static_unresolved_constructs"] = len(ex.unresolved)
+        chk.cov["static_callee_resolution"] = dict(ex.stats)
         chk.count(key=("static",), nontrivial=True, n=sn)
         for n in snames:
             chk.hist("static: extracted skeleton", n)
         for b in sbroken:
             chk.broken.append({"what": "correspondence corr:C16-static shard not evaluated", "detail": b})
         for i in sorted(sfail):
-            chk.disagreement("corr:C16-static (skeleton extracted from the source is not accepted by the model's join-precise static analysis global_free_w, "
+            chk.disagreement("corr:C16-static (skeleton extracted from the source is not accepted by the proved source-level analysis pglobal_free, "
                              "or is draw-free where the model draws)",
                              {"function_or_class": snames[i], "identified_global_sources": [f"{w}: {m}" for (w, m) in ex.flags][:12],
                               "extracted_skeleton": scases[i][:1500]})
@@ -1318,8 +1486,10 @@ def run(chk):
                        "a generator is considered drawn from when one of its sampling methods is looked up"]
     chk.trusted += ["draw skeletons of Model/Draws.v are hand-written abstractions of the call structure; tied to the code only through the source projection of draw traces",
                     "LogRS interposition (harness): replaces np.random.mtrand._rand / module-level numpy.random functions / np.random.RandomState for the duration of the run",
-                    "ast extraction of draw skeletons (harness, corr:C16-static): intraprocedural walk + inlining by bare callee name + constant propagation of keyword arguments; "
-                    "constructs it does not understand are counted (static_unresolved_constructs), never an alarm; method calls on objects are covered only through constructor inlining"]
+                    "ast-to-pskel transcription (harness, corr:C16-static): statement walk keeping the names of the code, callees resolved through the import tables "
+                    "(module-qualified; unique bare name as fallback, counted), callee bodies inlined, constant keyword arguments propagated into `if` tests; the ABSTRACTION of names is "
+                    "done and proved in Coq (pgf); constructs the transcription does not understand are counted (static_unresolved_constructs), never an alarm; method calls on objects "
+                    "are covered only through constructor inlining; only names bound from check_random_state / the argument / np.random are considered generator-valued"]
     return chk.finish({})
 
 
